@@ -33,7 +33,24 @@ class Failure(Exception):
 
 def _execute(setup: dict, schedule, rng, record: list):
     """Run one interleaving.  schedule: list of thread names (replay) or None."""
+    import os
+    import tempfile
+
     from AEIC.trajectories import TrajectoryStore
+
+    setup = dict(setup)
+    base = '/dev/shm' if os.path.isdir('/dev/shm') else tempfile.gettempdir()
+    fd, junk = tempfile.mkstemp(prefix='aeicverif-junk-', suffix='.nc', dir=base)
+    os.write(fd, b'this is not a NetCDF file' * 20)
+    os.close(fd)
+    setup['junk'] = junk
+    try:
+        return _execute_inner(setup, schedule, rng, record, TrajectoryStore)
+    finally:
+        os.unlink(junk)
+
+
+def _execute_inner(setup, schedule, rng, record, TrajectoryStore):
 
     trace = Trace()
     policy = setup['policy']
@@ -80,14 +97,25 @@ def _execute(setup: dict, schedule, rng, record: list):
     sched = T.Scheduler(choose, TRACE_FILES, opcode_funcs=opcode_funcs)
     events = []   # (seq, kind, thread, outcome)
 
+    class SubStore(TrajectoryStore):
+        """A user subclass: creating one is creating a trajectory store."""
+
     def make_body(name, script):
         def body(simthread):
             stores = []
             for act in script:
-                if act == 'create':
+                if act == 'open_bad':
+                    # opening a file that exists but is not a store fails; it must not change
+                    # who owns the stores
+                    try:
+                        TrajectoryStore.open(base_file=setup['junk'])
+                    except Exception as e:  # noqa: BLE001
+                        sched.log('open_bad', name, outcome=type(e).__name__)
+                    continue
+                if act in ('create', 'create_sub'):
                     s0 = sched.log('ctor.start', name)
                     try:
-                        st = TrajectoryStore.create()
+                        st = (SubStore if act == 'create_sub' else TrajectoryStore).create()
                     except RuntimeError as e:
                         s1 = sched.log('ctor.end', name, outcome='refused')
                         events.append((s0, s1, name, 'refused', str(e)[:80]))
@@ -192,9 +220,12 @@ def draw_setup(rng: random.Random, tier: str) -> dict:
         k = rng.choice([1, 1, 2, 3])
         sc = []
         for _ in range(k):
-            sc.append('create')
-            if rng.random() < 0.35:
+            sc.append('create' if rng.random() < 0.8 else 'create_sub')
+            r2 = rng.random()
+            if r2 < 0.3:
                 sc.append('close')
+            elif r2 < 0.45:
+                sc.append('open_bad')
         scripts.append(sc)
     r = rng.random()
     if r < 0.35:
